@@ -454,7 +454,71 @@ func c10Oracles(doc *vj, subst *strings.Replacer) []string {
 
 // ---- one step -------------------------------------------------------------------------------------------------
 
+// the session without connection resumes on a new connection, receives what was stored for
+// it, and loses the connection again
+func (f *c10Fix) runResume(s *c10Step, emitStart func()) {
+	f.ensureBystander()
+	f.ensureOffline()
+	f.sys.settle()
+	f.by.take()
+	before, offBefore := f.digestText()
+	emitStart()
+	c := f.newConn()
+	f.seq++
+	c.send([]byte(fmt.Sprintf(`{"id":"fxresume%d","type":"hello","hello":{"version":"1.0","resumeid":%q}}`, f.seq, f.offPriv))) // nolint
+	f.sync(c)
+	f.sys.settle()
+	msgs, closed := c.take()
+	rev := strings.NewReplacer(f.offPub, c10Oid, f.byPub, c10Bid, c10RoomId, c10Room)
+	s.Alive, s.Closed = true, closed
+	s.Replies = []string{}
+	resumed := false
+	for _, m := range msgs {
+		if bytes.Contains(m, []byte(`"id":"hdsync`)) {
+			continue
+		}
+		var sm ServerMessage
+		if sm.UnmarshalJSON(m) == nil && sm.Type == "hello" && sm.Hello != nil && sm.Hello.SessionId == f.offPub {
+			resumed = true
+		}
+		s.Replies = append(s.Replies, c10Reply(m, rev))
+	}
+	if !resumed {
+		s.Replies = append(s.Replies, "RBad") // the session could not be resumed
+	}
+	f.drop(c)
+	f.sys.settle()
+	s.ByOk = f.sync(f.by)
+	bmsgs, bclosed := f.by.take()
+	s.By = []string{}
+	for _, m := range bmsgs {
+		if bytes.Contains(m, []byte(`"id":"hdsync`)) {
+			continue
+		}
+		s.By = append(s.By, c10Bystander(m, ""))
+	}
+	sort.Strings(s.By)
+	if bclosed {
+		s.ByOk = false
+	}
+	after, offAfter := f.digestText()
+	s.DSame = before == after
+	s.Off = offAfter - offBefore // minus the number of messages that were delivered
+	if offAfter != 0 {
+		s.Replies = append(s.Replies, "RBad") // something stayed in the queue
+	}
+	s.Api = 0
+	s.Done = true
+	if !resumed || !s.ByOk {
+		f.offPub = ""
+	}
+}
+
 func (f *c10Fix) run(s *c10Step, emitStart func()) {
+	if s.K == "resume" {
+		f.runResume(s, emitStart)
+		return
+	}
 	sf := f.ensure(s.St)
 	if s.St == 4 {
 		f.ensurePending(sf)
